@@ -43,6 +43,51 @@ var dests = []reflect.Type{
 	reflect.TypeOf([1]*int{}),
 }
 
+// refDests are the destinations of the "ref" domain: the first field takes a value as it comes, the second is
+// the destination of a back-reference to it, so that the decoder has to convert what it has read already
+// (decoder.go:convertReference, converter.go) instead of reading a token.
+var refDests = func() []reflect.Type {
+	iface := reflect.TypeOf((*interface{})(nil)).Elem()
+	var out []reflect.Type
+	for _, t := range []reflect.Type{
+		reflect.TypeOf([4]byte{}), reflect.TypeOf(uuid.UUID{}), reflect.TypeOf(""), reflect.TypeOf([]byte(nil)), reflect.TypeOf([]int(nil)),
+		reflect.TypeOf([2]int{}), reflect.TypeOf(gen.Inner{}), reflect.TypeOf((*gen.Inner)(nil)), reflect.TypeOf(map[string]int(nil)),
+		reflect.TypeOf(time.Time{}), reflect.TypeOf(int(0)), reflect.TypeOf(big.Int{}), reflect.TypeOf((*list.List)(nil)),
+		reflect.TypeOf([]uuid.UUID(nil)), reflect.TypeOf((*[2]byte)(nil)), reflect.TypeOf(float64(0)), iface,
+	} {
+		out = append(out, reflect.StructOf([]reflect.StructField{{Name: "A", Type: iface}, {Name: "B", Type: t}}))
+	}
+	return out
+}()
+
+const refBase = 1000 // arena index of refDests[0]
+
+func destType(d int) reflect.Type {
+	if d >= refBase {
+		return refDests[d-refBase]
+	}
+	return dests[d]
+}
+
+// refStreams are the valid streams of the "ref" domain: a map of two entries, a referable token under "a" and a
+// back-reference to it under "b".
+func refStreams() [][]byte {
+	u := uuid.MustParse("01234567-89ab-cdef-0123-456789abcdef")
+	toks := []struct {
+		tok string
+		idx int
+	}{
+		{`s2"ab"`, 1}, {`s36"01234567-89ab-cdef-0123-456789abcdef"`, 1}, {`b2"ab"`, 1}, {`b4"abcd"`, 1}, {`b16"` + string(u[:]) + `"`, 1},
+		{"g{01234567-89ab-cdef-0123-456789abcdef}", 1}, {"D20220227T123456Z", 1}, {"T123456Z", 1},
+		{"a2{12}", 1}, {`a1{s2"ab"}`, 1}, {`a1{s2"ab"}`, 2}, {"m1{ua1}", 1}, {`c5"Inner"2{s1"a"s1"b"}o0{1ux}`, 3}, {`c5"Inner"2{s1"a"s1"b"}o0{1ux}`, 1},
+	}
+	var out [][]byte
+	for _, t := range toks {
+		out = append(out, []byte(fmt.Sprintf("m2{ua%subr%d;}", t.tok, t.idx)))
+	}
+	return out
+}
+
 // ioVariants are the entry points of the io domain: per mode three stages, the reader-fed decoder first (see
 // spin detection below), then the in-memory decoder, then the Formatter wrapper of that mode (Marshal's
 // default formatter in simple mode, the pooled decoder of Formatter{Simple:false} in reference mode).
@@ -112,6 +157,8 @@ func nCells(domain string) int {
 		return len(services)
 	case "cli":
 		return len(cliReturn)
+	case "ref":
+		return len(refDests)
 	}
 	panic("domain " + domain)
 }
@@ -122,6 +169,8 @@ func cellName(domain string, cell int) string {
 		return ioCellName(cell)
 	case "svc":
 		return svcNames[cell]
+	case "ref":
+		return refDests[cell].String() + " via coder/ref"
 	}
 	return cliCellName(cell)
 }
@@ -189,6 +238,10 @@ func runCell(domain string, cell int, input []byte) outcome {
 		default:
 			f = func() { err = iocase.Decode(iocase.Cfg{Entry: "formatter"}, input, p) }
 		}
+	case "ref":
+		ar = arenaFor(refBase + cell)
+		p := ar.ptr
+		f = func() { err = iocase.Decode(iocase.Cfg{Entry: "coder", Simple: false}, input, p) }
 	case "svc":
 		svc := services[cell]
 		f = func() {
@@ -245,7 +298,7 @@ func arenaFor(d int) *arena {
 	a := arenas[d]
 	if a == nil {
 		gt := reflect.TypeOf([guardBytes]byte{})
-		st := reflect.StructOf([]reflect.StructField{{Name: "Pre", Type: gt}, {Name: "Val", Type: dests[d]}, {Name: "Post", Type: gt}})
+		st := reflect.StructOf([]reflect.StructField{{Name: "Pre", Type: gt}, {Name: "Val", Type: destType(d)}, {Name: "Post", Type: gt}})
 		all := reflect.New(st).Elem()
 		a = &arena{all: all, val: all.Field(1), ptr: all.Field(1).Addr().Interface(),
 			pre: all.Field(0).Slice(0, guardBytes).Bytes(), pst: all.Field(2).Slice(0, guardBytes).Bytes()}
